@@ -155,6 +155,7 @@ def parse_function(fcn_str: str) -> tuple:
         elif isinstance(node, ast.Call):
             assert isinstance(node.func, ast.Name), f"Only direct calls to supported functions are allowed (in {fcn_str})"
             assert node.func.id in supported_functions, f"Only calls to supported functions are allowed ({node.func.id} in {fcn_str} is not supported)"
+            assert not node.keywords and not any(isinstance(arg, ast.Starred) for arg in node.args), f"Only positional arguments can be passed to functions (in {fcn_str})"
         elif isinstance(node, (ast.Attribute, ast.Lambda, ast.ListComp, ast.SetComp, ast.DictComp, ast.GeneratorExp, ast.NamedExpr)):
             raise AssertionError(f"Attribute access, lambdas, comprehensions and assignment expressions are not allowed in functions ({fcn_str})")
     compiled_code = compile(fcn_ast, filename="<ast>", mode="eval")
